@@ -1,2 +1,3 @@
 import Norad.Props.C11
 import Norad.Props.C06
+import Norad.Props.C05
